@@ -96,6 +96,7 @@ type Frame struct {
 }
 
 type Exec struct {
+	renames         map[string]string // contract name of a local -> its current name (pure renames, by declaration position)
 	staticSeen      map[string]bool
 	fvCells         map[string]int // free variables of the function under verification: spec name -> cell
 	prog            *Program
@@ -139,6 +140,10 @@ func NewExec(p *Program, st *Symtab, fnName string) (*Exec, error) {
 		bindings: map[string]types.Type{}, obN: map[string]int{}, maxPaths: 4000, callDepthLimit: 6, opts: map[string]string{},
 		assignedHeaps: map[string]bool{}, callAssumesUsed: map[string]bool{}, caseLabels: map[string]string{}}
 	ex.layouts.RegisterLeafClasses(p.Pkg.Types)
+	if c := p.CF.Contracts[fnName]; c != nil && len(c.Locals) > 0 {
+		ex.renames = localRenames(c.Locals, orderedLocals(fn))
+	}
+	renamesOf = ex.renames
 	if c := p.CF.Contracts[fnName]; c != nil {
 		ex.contract = c
 		ex.mode = c.Mode
@@ -1360,7 +1365,7 @@ func (ex *Exec) matchLoop(fn *ssa.Function, c *Contract, l *Loop) *LoopSpec {
 			if !ok {
 				break
 			}
-			if phi.Comment == v {
+			if phi.Comment == v || (ex.renames[v] != "" && phi.Comment == ex.renames[v]) {
 				return true
 			}
 		}
@@ -1374,9 +1379,23 @@ func (ex *Exec) matchLoop(fn *ssa.Function, c *Contract, l *Loop) *LoopSpec {
 	sort.Ints(ords)
 	claimed := map[*Loop]*LoopSpec{}
 	used := map[*LoopSpec]bool{}
+	// first the loops that still sit at the annotation's ordinal and still have its variable
+	// (an unrelated loop whose variable was renamed must not shift the others)
 	for _, o := range ords {
 		sp := c.Loops[o]
 		if sp.Var == "" {
+			continue
+		}
+		for _, lp := range li.Loops {
+			if lp.Ordinal == o && claimed[lp] == nil && hasVar(lp, sp.Var) {
+				claimed[lp] = sp
+				used[sp] = true
+			}
+		}
+	}
+	for _, o := range ords {
+		sp := c.Loops[o]
+		if sp.Var == "" || used[sp] {
 			continue
 		}
 		for _, lp := range li.Loops {
@@ -1400,6 +1419,8 @@ func (ex *Exec) matchLoop(fn *ssa.Function, c *Contract, l *Loop) *LoopSpec {
 
 // loopAlias: when an annotation names a variable that no longer exists, its name is bound
 // to the phi that controls the loop (the phi operand of the loop condition).
+var renamesOf map[string]string // renames of the function being executed (set by NewExec)
+
 func loopAlias(l *Loop, sp *LoopSpec) *ssa.Phi {
 	if sp.Var == "" {
 		return nil
@@ -1410,7 +1431,7 @@ func loopAlias(l *Loop, sp *LoopSpec) *ssa.Phi {
 		if !ok {
 			break
 		}
-		if phi.Comment == sp.Var {
+		if phi.Comment == sp.Var || (renamesOf[sp.Var] != "" && phi.Comment == renamesOf[sp.Var]) {
 			return nil
 		}
 		phis = append(phis, phi)
@@ -1635,4 +1656,84 @@ func coveredBy(set map[string]bool, n string) bool {
 		}
 	}
 	return false
+}
+
+// orderedLocals: names of the variables a function declares (:=, var, range), in source order of
+// their first declaration. Nested function literals are not entered.
+func orderedLocals(fn *ssa.Function) []string {
+	var body *ast.BlockStmt
+	switch n := fn.Syntax().(type) {
+	case *ast.FuncDecl:
+		body = n.Body
+	case *ast.FuncLit:
+		body = n.Body
+	}
+	if o := fn.Origin(); body == nil && o != nil {
+		switch n := o.Syntax().(type) {
+		case *ast.FuncDecl:
+			body = n.Body
+		case *ast.FuncLit:
+			body = n.Body
+		}
+	}
+	if body == nil {
+		return nil
+	}
+	var out []string
+	seen := map[string]bool{}
+	add := func(id *ast.Ident) {
+		if id != nil && id.Name != "_" && !seen[id.Name] {
+			seen[id.Name] = true
+			out = append(out, id.Name)
+		}
+	}
+	ast.Inspect(body, func(n ast.Node) bool {
+		switch x := n.(type) {
+		case *ast.FuncLit:
+			return false
+		case *ast.AssignStmt:
+			if x.Tok == token.DEFINE {
+				for _, l := range x.Lhs {
+					if id, ok := l.(*ast.Ident); ok {
+						add(id)
+					}
+				}
+			}
+		case *ast.RangeStmt:
+			if x.Tok == token.DEFINE {
+				if id, ok := x.Key.(*ast.Ident); ok {
+					add(id)
+				}
+				if id, ok := x.Value.(*ast.Ident); ok {
+					add(id)
+				}
+			}
+		case *ast.ValueSpec:
+			for _, id := range x.Names {
+				add(id)
+			}
+		}
+		return true
+	})
+	return out
+}
+
+// localRenames: if the function still declares as many locals as when its contract was written,
+// a name that differs at the same position is a rename; contract text keeps working under the
+// old name. Any other change of the list (added / removed locals) yields no mapping.
+func localRenames(spec, cur []string) map[string]string {
+	if len(spec) != len(cur) {
+		return nil
+	}
+	curSet := map[string]bool{}
+	for _, c := range cur {
+		curSet[c] = true
+	}
+	m := map[string]string{}
+	for i := range spec {
+		if spec[i] != cur[i] && !curSet[spec[i]] {
+			m[spec[i]] = cur[i]
+		}
+	}
+	return m
 }
